@@ -230,6 +230,20 @@ def fn_rename(spec, rec):
             raise Mismatch("old-name-does-not-resolve-through-the-rename-table/%d-hops" % (len(seen) - 1), {"key": key, "target": final, "error": repr(e)[:200]})
         if via is not obj:
             raise Mismatch("old-name-resolves-to-another-object/%d-hops" % (len(seen) - 1), {"key": key, "target": final, "got": repr(via)[:100]})
+        # a function saved under its old location (a link function, a data factory) is a record of type FunctionType: it must
+        # load, through the registered loader, as the function that now lives at the target
+        import types
+        if isinstance(obj, types.FunctionType):
+            import json
+            from glue.core.state import GlueUnSerializer
+            text = json.dumps({"__main__": {"_type": "types.FunctionType", "function": key}})
+            try:
+                loaded = GlueUnSerializer.loads(text).object("__main__")
+            except Exception as e:  # noqa
+                raise Mismatch("function-record-with-old-name-does-not-load", {"key": key, "target": final, "error": repr(e)[:200]})
+            if loaded is not obj:
+                raise Mismatch("function-record-with-old-name-loads-another-object", {"key": key, "got": repr(loaded)[:100]})
+            rec.label("function-record-loaded")
     # the key must not name a concrete class that this package still defines and writes: "writes" is measured - the
     # _type values found in a session saved by this package with data, subsets, links and all four built-in viewers
     try:
